@@ -190,3 +190,36 @@ Proof.
     apply obj_packs_raw. rewrite forallb_forall in Hp. apply Hp, Ho.
   - fold (render_objs l). fold body. rewrite Hf. rewrite !app_length. lia.
 Qed.
+
+(* the fields of one rendered object in front of anything *)
+Lemma raw_fields c rest : raw_shaped c -> raw_packs c = true ->
+  le_decode (zslice 16 24 (render_raw c ++ rest)) = 24 + zlen (snd c) /\
+  ztake 16 (render_raw c ++ rest) = fst c /\
+  ztake (zlen (snd c)) (zdrop 24 (render_raw c ++ rest)) = snd c /\
+  zdrop (zlen (snd c)) (zdrop 24 (render_raw c ++ rest)) = rest /\
+  zlen (render_raw c ++ rest) = 24 + zlen (snd c) + zlen rest.
+Proof.
+  intros Hs Hp. unfold raw_shaped in Hs. unfold raw_packs in Hp. pose proof (zlen_nonneg (snd c)).
+  assert (Hd : render_raw c ++ rest = fst c ++ le_encode 8 (24 + zlen (snd c)) ++ (snd c ++ rest)).
+  { unfold render_raw. rewrite <- !app_assoc. reflexivity. }
+  rewrite Hd. split; [|split; [|split; [|split]]].
+  - rewrite (zslice_mid (fst c) (le_encode 8 (24 + zlen (snd c)))) by (zl; lia). apply le8_round. lia.
+  - apply ztake_exact. lia.
+  - rewrite app_assoc. rewrite (zdrop_exact (fst c ++ le_encode 8 (24 + zlen (snd c)))) by (zl; lia).
+    apply ztake_app_exact.
+  - rewrite app_assoc. rewrite (zdrop_exact (fst c ++ le_encode 8 (24 + zlen (snd c)))) by (zl; lia).
+    apply zdrop_app_exact.
+  - zl. lia.
+Qed.
+
+Lemma cls_of_inv g :
+  match cls_of g with
+  | KCD => g = G_CD | KECD => g = G_ECD | KMETA => g = G_META | KLIB => g = G_LIB | KPAD => g = G_PAD
+  | KHEXT => g = G_HEXT | _ => True
+  end.
+Proof.
+  unfold cls_of.
+  repeat match goal with |- context [if list_eqb g ?c then _ else _] =>
+    let E := fresh in destruct (list_eqb g c) eqn:E; [apply list_eqb_spec in E; try exact E; try exact I|] end.
+  exact I.
+Qed.
